@@ -243,6 +243,11 @@ func (s *Store) StateKey(st State) string {
 		if !ok {
 			n = k.String()
 		}
+		if k.Type == backend.ConfigFile {
+			// the config is the one file whose name does not determine its content
+			ch := sha256.Sum256(st[k])
+			n += "#" + hex.EncodeToString(ch[:6])
+		}
 		l = append(l, k.Type.String()+":"+n)
 	}
 	sort.Strings(l)
